@@ -37,7 +37,7 @@ def run():
         log("[C15] MVBatchMC: %d distinct states, %.0fs" % (r["distinct"], r["wall"]))
         states += r["distinct"]
         trans += r["generated"]
-        plans = [(3, 0, 0, 0), (2, 1, 1, 2)] if not thorough else [(3, 0, 0, 0), (4, 0, 0, 0), (2, 1, 2, 2), (2, 2, 1, 1)]
+        plans = [(3, 0, 0, 0), (2, 1, 1, 2), (2, 3, 3, 3)] if not thorough else [(3, 0, 0, 0), (4, 0, 0, 0), (2, 1, 2, 2), (2, 2, 1, 1), (2, 3, 3, 4)]
         hists = []
         for i, (n, mode, ba, bd) in enumerate(plans):
             r, h = gen(sc, n, mode, ba, bd, "gen%d" % i)
